@@ -36,7 +36,16 @@ RULE = ("histories of cache / logout operations against one real Saml2Client per
         "answers among the live requests (second, moot requests to a party included) + re-login + late answers; (b'') mixed front-channel / SOAP logouts of three IdPs x the SOAP IdP's answer (ok, http error, "
         "failure status) in each of three passes x session information of the last IdP reset or not; (c) IdP-initiated LogoutRequest for named/current subject "
         "in subjects^2 x IdP kind x binding; (d) seeded random histories (length <= 40, 1-3 subjects out of 5 NameIDs that "
-        "differ in one field only, 1-3 IdPs) with adaptive selection of pending request ids.  non-trivial = distinct "
+        "differ in one field only, 1-3 IdPs) with adaptive selection of pending request ids; (e) the CONTENT of the NameID, "
+        "complete over a pool of 74 further NameIDs in 12 families (blank / '+' / '%' / literal percent-sequences; leading, "
+        "trailing, inner blanks, tab, newline, no-break space; upper / lower case; composed / decomposed / non-Latin / astral "
+        "Unicode; the separators ',' '=' of the coding itself; reserved punctuation; the same tricky values in NameQualifier, "
+        "SPNameQualifier, SPProvidedID, Format; Format absent; one string in different fields): every member as subject 0 "
+        "with two neighbours of its family as subjects 1, 2 x three histories (front-channel logout to completion, deadline "
+        "passing before the answer, global_logout by coded string; the NameID arriving in XML: Responses and LogoutRequests "
+        "over three bindings, SOAP logout; the neighbours side by side at one issuer with different times); (e') seeded "
+        "histories of (d) with subjects drawn from one family / the whole pool and logouts asked for by coded string.  "
+        "Subjects handed out by the implementation are identified FIELD BY FIELD (not through ident.code).  non-trivial = distinct "
         "(operation kind, output kind, world class) triples observed")
 TRUSTED = ["virtual clock behind saml2.time_util (harness/env.py VClock)",
            "stub SOAP transport replacing Saml2Client.send; unsigned LogoutResponse / LogoutRequest templates in harness/c19.py",
@@ -44,7 +53,7 @@ TRUSTED = ["virtual clock behind saml2.time_util (harness/env.py VClock)",
            "abstraction of return values and client state in harness/c19.py",
            "source tie (translator v2, harness/py2coq2.py + Base/Py2.v; trusted base in notes/translator_v2.md: aliasing, "
            "object truthiness = has fields, exceptions = class names): time_util.before, time_util.after, Cache.get, "
-           "Cache.active, Cache.entities, Cache.delete, Population.stale_sources_for_person, "
+           "Cache.active, Cache.entities, Cache.delete, Cache.subjects, Population.stale_sources_for_person, "
            "Population.add_information_about_person, AuthnResponse.session_info, Saml2Client.is_logged_in are "
            "re-translated from the current text of saml2/{time_util,cache,population,response,client}.py on every run "
            "(coq/gen/C19Src2.v) and proved equal to the model functions in C19/Source2.v (c19_source2_*). Trusted there: "
@@ -53,8 +62,10 @@ TRUSTED = ["virtual clock behind saml2.time_util (harness/env.py VClock)",
            "ident.decode as injective coding of subjects (hypothesis cache_encoding_ok), and that Cache.set / "
            "Cache.get_identity / AuthnResponse.issuer / authn_info (not translatable or external) are arbitrary functions "
            "resp. behave as the hypotheses of c19_source2_is_logged_in say"]
-ASSUMPTIONS = ["NameIDs and entity ids are mapped to small numbers; distinctness of code(name_id) for the five NameIDs is "
-               "checked on the implementation side only (C18 proves code/decode)",
+ASSUMPTIONS = ["NameIDs and entity ids are mapped to small numbers: the model assumes that ident.code is injective and that "
+               "ident.decode inverts it (hypothesis cache_encoding_ok of the source theorems; shown necessary for Cache.subjects "
+               "by c19_source2_subjects_need_roundtrip); on the implementation side this is exercised by the NameID pool "
+               "(families of NameIDs a wrong coding conflates or does not bring back), not proved (C18 proves code/decode)",
                "message ids are numbered in order of first appearance in Saml2Client.state",
                "LogoutRequests / LogoutResponses are otherwise valid (IssueInstant, Destination, version)",
                "single-threaded use of the client (Saml2Client.lock is not exercised)"]
@@ -78,6 +89,79 @@ NAMEIDS = [
     {"text": "alice", "format": render.NAMEID_TRANSIENT, "sp_name_qualifier": world.SP_ID},
     {"text": "al=ice,4=alice", "format": render.NAMEID_TRANSIENT},
 ]
+BASE_N = len(NAMEIDS)     # the older generators draw from these five only (their cases stay what they were)
+
+# ---------------------------------------------------------------------------- the CONTENT of a NameID as a dimension
+# Everything the SP knows about a subject is filed under ident.code(name_id) (Cache._db, Saml2Client.state[..]
+# ["name_id"]) and comes back through ident.decode (Cache.subjects, Cache.get, handle_logout_response ->
+# local_logout / do_logout, global_logout(<str>)).  The model identifies subjects with numbers, i.e. it assumes
+# that the coding is injective and that decode inverts it.  The pool below exercises that assumption on the real
+# code: families of NameIDs that a wrong coding would CONFLATE (isolation) or fail to bring back (the session
+# cannot be ended): every class of character the percent-coding treats differently (blank, '+', '%', a literal
+# percent-sequence, '/', the separators ',' and '=' of the coding itself, reserved / unreserved punctuation,
+# control characters, non-ASCII in composed and decomposed form, upper / lower case, leading / trailing blanks),
+# in EACH of the five coded fields, the same string in different fields, and fields absent.
+X509 = "urn:oasis:names:tc:SAML:1.1:nameid-format:X509SubjectName"
+UNSPEC = "urn:oasis:names:tc:SAML:1.1:nameid-format:unspecified"
+WINDOMAIN = "urn:oasis:names:tc:SAML:1.1:nameid-format:WindowsDomainQualifiedName"
+_TR = render.NAMEID_TRANSIENT
+
+
+def _fam(*members):
+    out = []
+    for m in members:
+        d = {"format": _TR}
+        d.update(m)
+        out.append({k: v for k, v in d.items() if v is not None})
+    return out
+
+
+SHAPE_FAMILIES = {
+    # the blank and its look-alikes under the percent / plus codings
+    "blank": _fam({"text": "CN=Jane Doe,O=Example Org,C=SE", "format": X509},
+                  {"text": "CN=Jane+Doe,O=Example+Org,C=SE", "format": X509},
+                  {"text": "CN=Jane%20Doe,O=Example%20Org,C=SE", "format": X509},
+                  {"text": "CN=Jane%2BDoe,O=Example%2BOrg,C=SE", "format": X509}),
+    "plus-percent": _fam({"text": "a b"}, {"text": "a+b"}, {"text": "a%20b"}, {"text": "a%2Bb"}, {"text": "a%2520b"},
+                         {"text": "100%"}, {"text": "%"}, {"text": "%41lice"}),
+    "edge-blank": _fam({"text": " alice"}, {"text": "alice "}, {"text": " alice "}, {"text": "al ice"}, {"text": "alice\n"},
+                       {"text": "al\tice"}, {"text": "\u00a0alice"}),
+    "case": _fam({"text": "Alice"}, {"text": "ALICE"}, {"text": "alic\u00e9"}, {"text": "alic\u00c9"},
+                 {"text": "alice", "format": _TR.upper()}),
+    # composed / decomposed (NFC / NFD) spelling, without diacritics, CJK, the Latin-1 misreading of UTF-8, astral plane
+    "unicode": _fam({"text": "Zo\u00eb M\u00fcller"}, {"text": "Zoe\u0308 Mu\u0308ller"}, {"text": "Zoe Muller"},
+                    {"text": "\u5c71\u7530 \u592a\u90ce"}, {"text": "Zo\u00c3\u00ab M\u00c3\u00bcller"}, {"text": "\U0001f600 x"}),
+    "separators": _fam({"text": "alice,1=" + world.SP_ID}, {"text": "4=alice"}, {"text": "alice,"}, {"text": "=alice"},
+                       {"text": "al%3Dice%2C4%3Dalice"}, {"text": "0=x,4=alice"}, {"text": "alice", "name_qualifier": "x"}),
+    "punctuation": _fam({"text": "EXAMPLE\\jane doe", "format": WINDOMAIN}, {"text": "EXAMPLE/jane doe", "format": WINDOMAIN},
+                        {"text": "EXAMPLE%5Cjane doe", "format": WINDOMAIN}, {"text": "jane.doe+tag@example.org"},
+                        {"text": "jane.doe tag@example.org"}, {"text": "a&b<c>\"d'e;f?g#h~i"}, {"text": "a/b"},
+                        {"text": "a%2Fb"}),
+    # the same tricky values in the OTHER coded fields
+    "name-qualifier": _fam({"text": "alice", "name_qualifier": "Example Org"}, {"text": "alice", "name_qualifier": "Example+Org"},
+                           {"text": "alice", "name_qualifier": "Example%20Org"}, {"text": "alice", "name_qualifier": "example org"},
+                           {"text": "alice", "name_qualifier": "Example Org "}),
+    "sp-name-qualifier": _fam({"text": "alice", "sp_name_qualifier": "My SP"}, {"text": "alice", "sp_name_qualifier": "My+SP"},
+                              {"text": "alice", "sp_name_qualifier": "My%20SP"}, {"text": "alice", "sp_name_qualifier": "My,SP=1"},
+                              {"text": "alice", "name_qualifier": "My SP"}),
+    "sp-provided-id": _fam({"text": "alice", "sp_provided_id": "p1"}, {"text": "alice", "sp_provided_id": "p2"},
+                           {"text": "alice", "sp_provided_id": "Jane Doe"}, {"text": "alice", "sp_provided_id": "Jane+Doe"},
+                           {"text": "alice", "sp_provided_id": "P1"}, {"text": "p1", "sp_provided_id": "alice"}),
+    "format": _fam({"text": "alice", "format": None}, {"text": "alice", "format": UNSPEC},
+                   {"text": "alice", "format": "urn:example:my%20format"}, {"text": "alice", "format": "urn:example:my+format"},
+                   {"text": "alice", "format": "urn:example:my format"}, {"text": _TR, "format": None}),
+    # one string, different fields (a coding that forgets WHICH field a value came from conflates them)
+    "field-swap": _fam({"text": "alice", "name_qualifier": world.SP_ID}, {"text": "alice", "sp_name_qualifier": world.SP_ID + " "},
+                       {"text": world.SP_ID, "name_qualifier": "alice"}, {"text": "alice", "sp_provided_id": world.SP_ID},
+                       {"text": "alice", "name_qualifier": "q", "sp_name_qualifier": "r"},
+                       {"text": "alice", "name_qualifier": "r", "sp_name_qualifier": "q"},
+                       {"text": "alice", "name_qualifier": "q", "sp_name_qualifier": "r", "sp_provided_id": "Jane Doe"}),
+}
+SHAPE_IDX = {}
+for _name, _members in SHAPE_FAMILIES.items():
+    SHAPE_IDX[_name] = list(range(len(NAMEIDS), len(NAMEIDS) + len(_members)))
+    NAMEIDS += _members
+assert len({tuple(sorted(d.items())) for d in NAMEIDS}) == len(NAMEIDS), "the pool lists a NameID twice"
 STATUS_RESPONDER = "urn:oasis:names:tc:SAML:2.0:status:Responder"
 STATUS_DENIED = "urn:oasis:names:tc:SAML:2.0:status:RequestDenied"
 STATUS_UNKNOWN_PRINCIPAL = "urn:oasis:names:tc:SAML:2.0:status:UnknownPrincipal"
@@ -128,8 +212,15 @@ def nameid(idx):
 
 
 def nameid_xml(idx):
+    """local renderer (render.name_id knows neither SPProvidedID nor an absent Format); attribute values and text
+    are escaped so that the parsed NameID carries exactly the pool's strings (tab / newline as character references)"""
     n = NAMEIDS[idx]
-    return render.name_id(n["text"], n.get("format"), n.get("name_qualifier"), n.get("sp_name_qualifier"))
+    ent = {"\t": "&#9;", "\n": "&#10;", "\r": "&#13;"}
+    return "<saml:NameID%s>%s</saml:NameID>" % (
+        "".join(" %s=%s" % (a, render.quoteattr(n[f], ent)) for a, f in
+                (("Format", "format"), ("NameQualifier", "name_qualifier"), ("SPNameQualifier", "sp_name_qualifier"),
+                 ("SPProvidedID", "sp_provided_id")) if n.get(f) is not None),
+        render.escape(n["text"], {"\r": "&#13;"}))
 
 
 def session_info(s_idx, issuer, nooa, tok):
@@ -179,6 +270,7 @@ def exn_name(e):
 
 # ---------------------------------------------------------------------------- translator v2 (source tie)
 SRC2_FUNCTIONS = ["time_util.before", "time_util.after", "Cache.get", "Cache.active", "Cache.entities", "Cache.delete",
+                  "Cache.subjects",
                   "Population.stale_sources_for_person", "Population.add_information_about_person",
                   "AuthnResponse.session_info", "Saml2Client.is_logged_in"]
 
@@ -222,6 +314,9 @@ def src2_items():
          {"name": "src2_cache_delete", "params": ["self", "name_id"], "exc_parents": exc, "returns_state": ["self"],
           "extra_params": [code_, ("sync_", "pyval -> pyval")],
           "calls": dict(code_call, **{"self._db.sync": lambda a: '(sync_ (p2_attr v_self "_db"))'})}),
+        (os.path.join(sdir, "cache.py"), "Cache.subjects",
+         {"name": "src2_cache_subjects", "params": ["self"], "exc_parents": exc,
+          "extra_params": [("decode_", "pyval -> pyval")], "calls": {"decode": lambda a: "(decode_ %s)" % a[0]}}),
         (os.path.join(sdir, "population.py"), "Population.stale_sources_for_person",
          {"name": "src2_stale_sources", "params": ["self", "name_id", "sources"], "exc_parents": exc,
           "extra_params": clock + [code_],
@@ -270,7 +365,9 @@ class Runner:
         from saml2.ident import code
 
         self.code = code
-        self.sub_code = {code(nameid(g)): j for j, g in enumerate(self.subs)}
+        from saml2.ident import decode
+
+        self.decode = decode
         self.rid_num = {}
         self.rid_real = {}
         self.answers = []
@@ -295,6 +392,22 @@ class Runner:
         except TypeError:      # not even hashable: certainly not an entity id of this world
             return 99
 
+    FIELDS = ("text", "format", "name_qualifier", "sp_name_qualifier", "sp_provided_id")
+
+    def sub_of(self, n):
+        """which subject of the case a NameID handed out by the implementation IS: field by field against the pool
+        (not through ident.code: a coding that conflates two subjects or does not come back must show); a coded
+        string (pending entries) is first turned back the way the client itself does it (ident.decode)"""
+        if isinstance(n, str):
+            try:
+                n = self.decode(n)
+            except Exception:  # noqa
+                return 99
+        for j, g in enumerate(self.subs):
+            if all(getattr(n, f, None) == NAMEIDS[g].get(f) for f in self.FIELDS):
+                return j
+        return 99
+
     def number_rids(self):
         for k in self.sp.state:
             if k not in self.rid_num:
@@ -313,15 +426,19 @@ class Runner:
         sp = self.sp
         subjects = []
         for n in sp.users.subjects():
-            j = self.sub_code.get(self.code(n), 99)
-            subjects.append([j, [self.issuer_idx(e) for e in sp.users.issuers_of_info(n)]])
+            j = self.sub_of(n)
+            try:
+                iss = [self.issuer_idx(e) for e in sp.users.issuers_of_info(n)]
+            except Exception:  # noqa: a subject the cache lists but does not know (the key does not come back)
+                iss = [99]
+            subjects.append([j, iss])
         logged = [j for j, g in enumerate(self.subs) if sp.is_logged_in(nameid(g))]
         self.number_rids()
         pending = []
         for k, v in sp.state.items():
             exp = v.get("not_on_or_after")
             pending.append([self.rid_num[k], self.issuer_idx(v["entity_id"]), [self.issuer_idx(e) for e in v["entity_ids"]],
-                            self.sub_code.get(v["name_id"], 99), None if exp is None else _epoch(exp)])
+                            self.sub_of(v["name_id"]), None if exp is None else _epoch(exp)])
         return {"subjects": sorted(subjects), "logged": sorted(logged), "pending": sorted(pending, key=lambda p: p[0])}
 
     def sent_abs(self, responses):
@@ -400,7 +517,9 @@ class Runner:
             if info is None:
                 return ["Info", None]
             t = int(info["session_index"][3:])
-            same_subject = self.code(info["name_id"]) == self.code(nameid(self.subs[s]))
+            # the information names THIS subject: same key and the very same NameID (every field)
+            same_subject = (self.code(info["name_id"]) == self.code(nameid(self.subs[s]))
+                            and info["name_id"] == nameid(self.subs[s]))
             if info["ava"].get("uid") != ["u%d" % t] or not same_subject or "issuer" in info:
                 t = -1
             return ["Info", t]
@@ -412,9 +531,14 @@ class Runner:
             CLOCK.tick(op[1])
             return ["Unit"]
         if k == "StartLogout":
-            _, s, dl, ans = op
+            _, s, dl, ans = op[:4]
             self.answers = ans
-            res = sp.global_logout(nameid(self.subs[s]), "urn:oasis:names:tc:SAML:2.0:logout:user",
+            # the subject as NameID instance, or (5th element "str") in its coded string form, which global_logout
+            # documents by its isinstance(name_id, str) branch: same abstract operation
+            who = nameid(self.subs[s])
+            if len(op) > 4 and op[4] == "str":
+                who = self.code(who)
+            res = sp.global_logout(who, "urn:oasis:names:tc:SAML:2.0:logout:user",
                                    None if dl is None else env.iso(dl))
             return self.logout_result(res)
         if k == "LogoutResponse":
@@ -705,7 +829,7 @@ def expiry_random_history(rng):
     nk = rng.randint(2, 3)
     ns = rng.randint(2, 3)
     idps = rng.sample(NOSOAP_KINDS, nk)
-    subjects = rng.sample(range(len(NAMEIDS)), ns)
+    subjects = rng.sample(range(BASE_N), ns)
     now = T0
     times = []
     ops = []
@@ -856,6 +980,81 @@ def request_histories():
     return cases
 
 
+def shape_histories():
+    """(e) the content of the NameID, complete over the pool: every member of every family of SHAPE_FAMILIES takes
+    the role of subject 0 with its two neighbours in the family (the NameIDs a wrong coding would confuse it with) as
+    subjects 1 and 2, in three histories that between them go through every place where the coded form is written
+    or read back: Cache.set / get / get_identity / active / delete, Cache.subjects (every view), the pending entries
+    of a front-channel logout and handle_logout_response's local_logout(decode(..)) at completion, its do_logout(decode
+    (..)) continuation and the 504 branch after the deadline, global_logout(<coded string>), the NameID arriving in
+    XML (Response, LogoutRequest over the three bindings) and compared with the current subject."""
+    cases = []
+    late = T0 + 1000
+    for fam, members in SHAPE_IDX.items():
+        k = len(members)
+        for p in range(k):
+            subjects = [members[p], members[(p + 1) % k], members[(p + 2) % k]]
+            ok2 = ["ok", "ok"]
+            # A: front-channel logout to completion; coded-string form with the deadline passing before the answer;
+            #    deadline already passed at the start
+            ops = [["Login", 0, 0, late, 1], ["Login", 0, 1, late, 2], ["Login", 1, 0, late, 3], ["Login", 2, 1, late, 4],
+                   ["Login", 1, 1, late, 5], ["GetInfoFrom", 0, 0, True], ["GetIdentity", 0, [], True], ["GetIdentity", 1, [], True],
+                   ["GetIdentity", 2, [], True],
+                   ["StartLogout", 0, T0 + 500, ok2], ["LogoutResponse", {"live": 0}, "addr", True, ok2, "R"],
+                   ["GetIdentity", 0, [], True], ["LogoutResponse", {"live": 0}, "addr", True, ok2, "P"],
+                   ["GetIdentity", 0, [], True], ["GetInfoFrom", 0, 0, False], ["GetIdentity", 1, [], True],
+                   ["GetIdentity", 2, [], True],
+                   ["StartLogout", 1, T0 + 500, ok2, "str"], ["Tick", 600],
+                   ["LogoutResponse", {"live": 0}, "addr", True, ok2, "R"], ["GetIdentity", 1, [], True],
+                   ["GetIdentity", 2, [], True],
+                   ["StartLogout", 2, T0, ok2, "str"], ["GetIdentity", 2, [], True], ["GetInfoFrom", 2, 1, False]]
+            cases.append(mk("SRP", ["R", "P"], subjects, ops, "shape-" + fam))
+            # B: the NameID arrives in XML: Responses, IdP-initiated LogoutRequests (named / current: this subject or
+            #    its neighbour) over the three bindings; synchronous (SOAP) logout asked for by coded string
+            ops = [["Accept", 0, 0, late, None, 1, "good"], ["Accept", 1, 0, late, None, 2, "good"], ["Login", 2, 0, late, 3],
+                   ["Accept", 0, 1, None, late, 4, "good"],
+                   ["GetInfoFrom", 0, 0, True], ["GetInfoFrom", 1, 0, True], ["GetIdentity", 0, [], True], ["Stale", 0, []],
+                   ["LogoutRequest", 1, 0, 0, "R"], ["GetIdentity", 0, [], True], ["GetIdentity", 1, [], True],
+                   ["LogoutRequest", 0, 0, 0, "P"], ["GetIdentity", 0, [], True], ["GetIdentity", 1, [], True],
+                   ["GetIdentity", 2, [], True],
+                   ["LogoutRequest", 1, 1, 0, "S"], ["LogoutRequest", 2, 2, 0, "R"], ["LogoutRequest", 2, 2, 0, "R"],
+                   ["Accept", 0, 1, late, None, 5, "good"], ["Login", 1, 1, late, 6],
+                   ["StartLogout", 0, None, ok2, "str"], ["GetIdentity", 0, [], True], ["GetIdentity", 1, [], True],
+                   ["StartLogout", 1, None, ["ok", "http"]], ["StartLogout", 1, None, ok2, "str"], ["GetIdentity", 1, [], True]]
+            cases.append(mk("SRP", ["R", "S"], subjects, ops, "shape-" + fam))
+            # C: the three neighbours side by side at ONE issuer with different times: isolation, expiry, reset, local logout
+            ops = [["Login", 0, 0, T0 + 10, 1], ["Login", 1, 0, T0 + 20, 2], ["Login", 2, 0, T0 + 30, 3]]
+            for s in range(3):
+                ops += [["GetInfoFrom", s, 0, True], ["GetIdentity", s, [], True]]
+            ops += [["Tick", 11]]
+            for s in range(3):
+                ops += [["GetInfoFrom", s, 0, True], ["GetIdentity", s, [], False], ["Stale", s, []]]
+            ops += [["Reset", 1, 0], ["GetInfoFrom", 1, 0, False], ["GetInfoFrom", 0, 0, False], ["GetInfoFrom", 2, 0, True],
+                    ["LocalLogout", 2], ["GetIdentity", 2, [], False], ["GetIdentity", 0, [], False], ["LocalLogout", 2],
+                    ["StartLogout", 1, None, ["ok"], "str"], ["StartLogout", 0, None, ["ok"], "str"],
+                    ["LogoutResponse", {"live": 0}, "addr", True, ["ok"], "P"], ["GetIdentity", 0, [], False],
+                    ["GetIdentity", 1, [], False]]
+            cases.append(mk("SRP", ["P"], subjects, ops, "shape-" + fam))
+    return cases
+
+
+def shape_random_history(rng, idx):
+    """(e') a random history of (d) whose subjects are drawn from ONE family of the pool (or, one time in four, from
+    the whole pool), and whose global logouts are asked for by coded string one time in three"""
+    c = random_history(rng, idx)
+    ns = len(c["subjects"])
+    if rng.random() < 0.75:
+        fam = rng.choice(sorted(SHAPE_IDX))
+        c["subjects"] = rng.sample(SHAPE_IDX[fam], ns)
+    else:
+        c["subjects"] = rng.sample(range(len(NAMEIDS)), ns)
+    for op in c["ops"]:
+        if op[0] == "StartLogout" and rng.random() < 0.34:
+            op.append("str")
+    c["tag"] = "random-shape"
+    return c
+
+
 def random_history(rng, idx):
     nosoap = rng.random() < 0.5
     nk = rng.randint(1, 3)
@@ -863,7 +1062,7 @@ def random_history(rng, idx):
     if nosoap and rng.random() < 0.1:
         idps[rng.randrange(nk)] = "N"
     ns = rng.randint(1, 3)
-    subjects = rng.sample(range(len(NAMEIDS)), ns)
+    subjects = rng.sample(range(BASE_N), ns)
     pref = rng.choice(PREFS)
     length = rng.randint(8, 40)
     st = {"now": T0, "tok": 1, "real": 0}
@@ -979,6 +1178,11 @@ def generate(ctx):
     erng = _random.Random(ctx.seed * 7919 + 19)
     for k in range(400 if ctx.thorough else 40):
         cases.append(expiry_random_history(erng))
+    # the content of the NameID (round 4): complete over the pool, then seeded histories (again a generator of its own)
+    cases += shape_histories()
+    srng = _random.Random(ctx.seed * 7919 + 23)
+    for k in range(800 if ctx.thorough else 80):
+        cases.append(shape_random_history(srng, k))
     return cases
 
 
